@@ -295,7 +295,13 @@ func check(args []string) int {
 			if err != nil {
 				engineErrs = append(engineErrs, engErr{err.Error(), ct.Props, key, p})
 			}
-			obls = append(obls, os2...)
+			for _, o := range os2 {
+				// obligations generated from clauses tagged with their own properties (inv T1[C14]: ...) count
+				// only for those properties; reachability covers always count
+				if o.Kind == "vacuity" || len(o.Props) == 0 || hasProp(o.Props, *prop) {
+					obls = append(obls, o)
+				}
+			}
 			eng.FuncsVerified = append(eng.FuncsVerified, p[len(vc.ModPath)+1:]+"."+key)
 		}
 		for _, lm := range ps.Lemmas {
